@@ -305,10 +305,24 @@ func (vc *VC) intrinsic(st *State, call *ast.CallExpr, full string, sig *types.S
 		vc.declareErrIs()
 		return []*Value{boolV(app("errIs", args[0].Term, args[1].Term))}, true
 	case "fmt.Sprintf", "fmt.Sprint", "fmt.Sprintln":
-		if vc.w.Contracts["fmt::Sprintf"] != nil && full == "fmt.Sprintf" {
-			return nil, false
+		r := vc.fresh("sprintf", "Int")
+		if full == "fmt.Sprintf" && !call.Ellipsis.IsValid() && len(call.Args) >= 1 {
+			// ghost: the number of `?` placeholders is additive over the format and its string arguments
+			// (non-string arguments are numbers / identifiers here and contribute none)
+			sum := []string{app("qmarks", vc.evalExpr(st, call.Args[0]).Term)}
+			for _, a := range call.Args[1:] {
+				if T := vc.typeOf(a); T != nil && isString(T) {
+					sum = append(sum, app("qmarks", vc.evalExpr(st, a).Term))
+				}
+			}
+			t := sum[0]
+			if len(sum) > 1 {
+				t = app("+", sum...)
+			}
+			st.assume(smtEq(app("qmarks", r), t))
+			vc.assumptions["fmt.Sprintf: the number of `?` in the result is the sum over the format string and the string-typed arguments"] = true
 		}
-		return []*Value{intV(vc.fresh("sprintf", "Int"), types.Typ[types.String])}, true
+		return []*Value{intV(r, types.Typ[types.String])}, true
 	case "fmt.Println", "fmt.Printf", "fmt.Print":
 		return vc.havocResults(st, "print", sig), true
 	}
@@ -445,6 +459,9 @@ func (vc *VC) run() {
 				if ro != nil {
 					rets = append(rets, vc.evalIdentObj(o.st, ro))
 				}
+			}
+			if len(rets) < len(fr.types) {
+				continue // falling off the end of a function with results: unreachable (the compiler guarantees a terminating statement)
 			}
 		default:
 			vc.unsupported(fd, "break/continue outside loop")
